@@ -45,7 +45,7 @@ def build_cases(ctx):
     q = ctx.quick()
     mem = 1024 if q else 4096
     groups = [
-        bg.gen_lexing(rng, ctx.n(60, 400)), bg.gen_syntax(rng, ctx.n(260, 1500)), bg.gen_names(rng, ctx.n(120, 600)),
+        bg.gen_lexing(rng, ctx.n(60, 400)), bg.gen_unterminated(rng, ctx.n(400, 2000)), bg.gen_syntax(rng, ctx.n(260, 1500)), bg.gen_names(rng, ctx.n(120, 600)),
         bg.gen_layout(rng, ctx.n(176, 880)), bg.gen_range(rng, ctx.n(256, 2048)), bg.gen_arith(rng, ctx.n(360, 2880)),
         bg.gen_recursion(rng, ctx.n(90, 184)), bg.gen_rep_recursion(rng, ctx.n(80, 160)), bg.gen_collisions(rng, ctx.n(76, 304)),
         bg.gen_bigint(rng, ctx.n(760, 2300)), bg.gen_interleave(rng, ctx.n(320, 3200)), layout_family(ctx, ctx.n(260, 2600)), bg.gen_huge(rng, ctx.n(56, 112), mem),
@@ -241,6 +241,12 @@ def judge(case, obs):
         # a count nobody can materialise must be refused; a program that is merely large may legitimately need longer than
         # the watchdog, so an expiry without such a count in the source is recorded as inconclusive, not as a violation
         # (whatever the killed process had already written says nothing either)
+        if case.get('must_finish'):
+            # nothing in these sources is large: the lexer / parser has to refuse them at once.  Its own kind, so that the
+            # listed finding about unbounded rep counts and exponents (kind "hang") cannot absorb it
+            return [({'kind': 'hang-in-lexer', 'stage': 'lex', 'gen': case['cls']},
+                     f'assembly of a {len(case["files"][0][1]) // 2}-byte source did not finish within {case.get("watchdog", WATCHDOG)} s '
+                     f'({case["hint"]})')]
         if not (case.get('slow') or HUGE_COUNT.search(case['hint'])):
             return []
         v.append(({'kind': 'hang', 'gen': case['cls']}, f'assembly did not finish within the watchdog ({case["hint"][:120]})'))
@@ -288,7 +294,8 @@ def judge(case, obs):
 
 def replay_of(case, obs):
     text = case['text']
-    r = {'case': {k: case[k] for k in ('cls', 'hint', 'w', 'v', 'stl', 'warm', 'files', 'max_depth', 'debug', 'require') if k in case},
+    r = {'case': {k: case[k] for k in ('cls', 'hint', 'w', 'v', 'stl', 'warm', 'files', 'max_depth', 'debug', 'require', 'must_finish', 'watchdog')
+                  if k in case},
          'source': text if isinstance(text, str) else text.decode('latin1'),
          'observed': {k: obs.get(k) for k in ('result', 'cls', 'cause', 'catch_all', 'frame', 'frame_file', 'stage', 'msg',
                                                'out_exists', 'out_size', 'reader', 'secs', 'debug', 'dbg_exists', 'dbg_load',
@@ -618,13 +625,13 @@ def run(ctx):
     phases['corpus'] = round(time.time() - t0, 1)
     t0 = time.time()
     for c in cases[len(cobs):]:
-        c['timeout'] = WATCHDOG if c.get('slow') else FIRST_PASS
+        c['timeout'] = WATCHDOG if c.get('slow') else min(FIRST_PASS, c.get('watchdog', FIRST_PASS))
     obs = cobs + run_cases(ctx, cases[len(cobs):])
     # watchdog expiries are re-run in isolation, with the full period, before being believed
     again = [i for i, o in enumerate(obs) if o['result'] in ('hang', 'crash') and not cases[i].get('slow')
              and cases[i]['cls'] != 'corpus']     # (an unmodified program that needs longer is just not mutated)
     if again:
-        redo = run_cases(ctx, [dict(cases[i], id=f'redo{i}', timeout=WATCHDOG) for i in again])
+        redo = run_cases(ctx, [dict(cases[i], id=f'redo{i}', timeout=cases[i].get('watchdog', WATCHDOG)) for i in again])
         for i, o in zip(again, redo):
             obs[i] = o
     phases['campaign'] = round(time.time() - t0, 1)
@@ -663,7 +670,7 @@ def run(ctx):
         listed = any(f['property'] == ctx.prop and all(sig.get(a) == b for a, b in f['match'].items())
                      for f in ctx.findings.get('findings', []))
         # a listed finding is only named, not minimised again; a program built for one required diagnostic is kept whole
-        c2 = c if listed or sig.get('kind') == 'wrong-diagnostic' else shrink(ctx, c, sig)
+        c2 = c if listed or sig.get('kind') in ('wrong-diagnostic', 'hang-in-lexer') else shrink(ctx, c, sig)
         if c2 is not c:
             o2 = run_cases(ctx, [dict(c2, id='min')])[0]
             if any(s == sig for s, _ in judge(c2, o2)):
@@ -735,6 +742,7 @@ def replay(ctx, path):
     c = dict(rp['case'])
     c['id'] = 'replay'
     c['text'] = rp.get('source', '')
+    c['timeout'] = c.get('watchdog', WATCHDOG)
     o = run_cases(ctx, [c])[0]
     print(f'[C14] replay of {path}')
     print(f'  input: w={c["w"]} version={c["v"]} stl={c["stl"]} source={rp.get("source", "")[:400]!r}')
